@@ -622,7 +622,7 @@ func vfRunC17E2E(c vfScenCase) *kit.Result {
 			return r
 		}
 	}
-	if !vfDiskRoomy(os.TempDir()) {
+	if !vfDiskRoomy(vfScratchDir()) {
 		// with less than ~30 % of the disk free the continuous recorder prunes old recordings by design: the
 		// tiling cannot be observed on this machine; the case is counted but asserts nothing
 		r.Class("disk_low_case_skipped")
